@@ -33,7 +33,7 @@ from ..evidence import Run, canon_hash
 
 PID = "C15"
 SHARDS = {"quick": 6, "thorough": 16}
-N = {"quick": 700, "thorough": 24000}
+N = {"quick": 1400, "thorough": 80000}
 SHARD_TIMEOUT = {"quick": 300, "thorough": 1700}
 
 
@@ -352,7 +352,13 @@ class Case:
             self.index_after_reset(step, fa, fb, level)
         # order / membership of keys
         run.count("KEEP:key_list")
-        if kb != expect_keys:
+        if m == "reset_index":
+            # where the former levels are inserted is judged by MIRROR
+            # (ordered=True) only; here just membership
+            kb_cmp, expect_cmp = sorted(kb), sorted(expect_keys)
+        else:
+            kb_cmp, expect_cmp = kb, expect_keys
+        if kb_cmp != expect_cmp:
             self.viol("column-keys-not-as-requested", step,
                       {"expected": expect_keys, "got": kb})
         for k in kb:
@@ -486,6 +492,9 @@ class Case:
             if st.backend == "polars":
                 import polars as pl
                 vals = D_before[k].to_list()
+                if cols_before[k]["dtype"] == "dt":
+                    import datetime
+                    bad = datetime.datetime.fromisoformat(bad)
                 vals[-1] = bad
                 Db = D_before.with_columns(pl.Series(k, vals, dtype=D_before[k].dtype))
             else:
@@ -601,10 +610,75 @@ class Case:
             self.viol("receiver-changed", step, {"diff": d})
 
 
+def component_case(run, rng):
+    """update_checks / set_checks on a stand-alone component schema."""
+    import pandas as pd
+    kind = rng.choice(["series", "column", "index", "pl_column"])
+    backend = "polars" if kind == "pl_column" else "pandas"
+    pa = P._pa(backend)
+    dt = rng.choice(["int", "float", "str", "dt"] if backend == "pandas"
+                    else ["int", "float", "str"])
+    col = G.gen_column(rng, "a", dt, backend=backend, allow_custom=False, p_drop=0.15)
+    spec = {"backend": backend, "kind": {"series": "series", "column": "column",
+                                          "index": "index", "pl_column": "column"}[kind],
+            "columns": [col]}
+    if kind == "index":
+        lv = G.gen_index_level(rng, "a", dt)
+        comp = G.build_index([lv])
+    elif kind == "pl_column":
+        comp = G.build_column(col, "polars", name="a")
+    else:
+        comp = G.build(spec).schema
+    method = rng.choice(["update_checks", "set_checks"])
+    empty = rng.random() < 0.3
+    new_spec = None if empty else G.gen_check(rng, dt, rich=False)
+    new_checks = [] if empty else [G.build_check(pa, dt, new_spec, backend == "polars")]
+    step = {"m": method, "component": kind, "dtype": dt, "empty": empty,
+            "check": new_spec}
+    case = Case(run, spec, None)
+    case.program.append(step)
+    run.count(f"request:{backend}:{method}:{kind}")
+    fa = F.fp(comp)
+    try:
+        res = getattr(comp, method)(new_checks)
+    except Exception as e:
+        case.viol("applicable-request-raised", step, {"exc": repr(e)[:300]})
+        return
+    run.count("RECV:evaluated")
+    run.count("COMPONENT:evaluated")
+    d = F.diff(fa, F.fp(comp))
+    if d:
+        case.viol("receiver-changed", step, {"diff": d})
+    else:
+        cd = comp_diff(fa, F.fp(res), ignore=("checks",))
+        if cd:
+            case.viol("untouched-attribute-changed", step,
+                      {"where": "update_checks result", "diff": cd[1]}, attr=cd[0])
+    if len(res.checks) != len(new_checks):
+        case.viol("update-not-applied", step, {"n_checks": len(res.checks)}, attr="checks")
+    # MIRROR: the data the component accepted is accepted by the result
+    if kind in ("series", "column") and not d:
+        data = G._pd_series(dt, list(G.POOL[dt])).rename("a")
+        if kind == "column":
+            data = data.to_frame()
+        if validate(comp, data).kind == "ok":
+            run.count("MIRROR:evaluated")
+            out = validate(res, data)
+            if out.kind != "ok":
+                case.viol("mirror-rejected", step, {"outcome": out.kind,
+                                                    "detail": repr(out.exc)[:300]})
+            else:
+                run.count("MIRROR:accepted")
+    run.case(canon_hash([spec, step]), True, sample={"component": kind, "column": col,
+                                                    "step": step})
+
+
 def one_case(run, rng):
+    if rng.random() < 0.1:
+        return component_case(run, rng)
     backend = "polars" if rng.random() < 0.3 else "pandas"
     spec = G.gen_spec(rng, backend=backend, kind="frame", allow_flavors=False,
-                      allow_dtz=False, allow_groupby=False, p_drop=0.3,
+                      allow_dtz=False, allow_groupby=False, p_drop=0.15,
                       min_cols=2, max_cols=4)
     try:
         built = G.build(spec)
